@@ -123,6 +123,7 @@ type Conn struct {
 	FailOnce     bool  // only the k-th call fails (a transient fault); otherwise the k-th and all later calls
 	FailFlushAt  int
 	FailFlushErr error
+	CloseErr     error // the (first, effective) Close closes the connection and still reports this error (e.g. a failed TLS close_notify)
 	writeCalls   int
 	flushCalls   int
 	Stalled      bool // Write/Writev block until Release
@@ -134,7 +135,7 @@ type Conn struct {
 
 // Fired counts the faults and fragmentations that really happened.
 type Fired struct {
-	ShortReads, ByteReads, BlockedReads, EOFs, Resets, Timeouts, WriteErrs, FlushErrs, WriteStalls, WriteAfterClose int
+	ShortReads, ByteReads, BlockedReads, EOFs, Resets, Timeouts, WriteErrs, FlushErrs, WriteStalls, WriteAfterClose, CloseErrs int
 }
 
 //go:norace
@@ -448,6 +449,10 @@ func (c *Conn) Close() error {
 	c.stallWait = nil
 	if c.Peer != nil && !c.Peer.Closed && c.Peer.inEnd == nil {
 		c.Peer.EndInput(io.EOF, false)
+	}
+	if c.CloseErr != nil {
+		c.Fired.CloseErrs++
+		return c.CloseErr
 	}
 	return nil
 }
